@@ -1,12 +1,12 @@
 // replay for property C02
 // refuted obligation (Kani harness): algorithm::kalman::verif::c02_p_change_desired_frequency_clamped  [/verif/kani/ntp_proto/algorithm/kalman/mod.rs]
-// failed checks: NaN on division @ ntp-proto/src/algorithm/kalman/mod.rs:336
+// failed checks: assertion failed: FREQS.load(Relaxed) == 1 && f >= -max && f <= max @ /verif/kani/ntp_proto/algorithm/kalman/mod.rs:308
 // re-run natively against the real code:  /verif/check C02 --replay /verif/replays/C02-c02_p_change_desired_frequency_clamped.rs
 //meta {"property": "C02", "crate_dir": "ntp-proto", "harness": "algorithm::kalman::verif::c02_p_change_desired_frequency_clamped", "harness_file": "/verif/kani/ntp_proto/algorithm/kalman/mod.rs", "features": [], "transform": true, "c_ffi": false}
-// native replay: passed-natively
+// native replay: reproduced
 /// Test generated for harness `algorithm::kalman::verif::c02_p_change_desired_frequency_clamped` 
 ///
-/// Check for `cover`: "reachable"
+/// Check for `assertion`: "assertion failed: FREQS.load(Relaxed) == 1 && f >= -max && f <= max"
 ///
 /// # Warning
 ///
@@ -20,7 +20,7 @@
 /// logic.
 
 #[test]
-fn kani_concrete_playback_c02_p_change_desired_frequency_clamped_15151962456582636779() {
+fn kani_concrete_playback_c02_p_change_desired_frequency_clamped_6607746124697282843() {
     let concrete_vals: Vec<Vec<u8>> = vec![
         // 18446744073709551615ul
         vec![255, 255, 255, 255, 255, 255, 255, 255],
@@ -40,18 +40,18 @@ fn kani_concrete_playback_c02_p_change_desired_frequency_clamped_151519624565826
         vec![1],
         // 9223372036854775807
         vec![255, 255, 255, 255, 255, 255, 255, 127],
-        // -1
-        vec![0, 0, 0, 0, 0, 0, 240, 191],
-        // 5.626892e-270
-        vec![255, 191, 255, 255, 255, 199, 7, 8],
+        // 8.988466e+307
+        vec![0, 0, 0, 0, 0, 0, 224, 127],
+        // -1.779950e-307
+        vec![0, 0, 0, 2, 128, 255, 63, 128],
         // 1
         vec![1],
-        // 1
-        vec![1, 0, 0, 0, 0, 0, 240, 63],
-        // 5.678650e-270
-        vec![10, 192, 255, 255, 255, 255, 7, 8],
-        // 5.175853e-272
-        vec![255, 255, 255, 255, 255, 255, 155, 7],
+        // 5.832898e-303
+        vec![0, 0, 0, 0, 0, 0, 48, 1],
+        // 1.412394e-310
+        vec![128, 43, 0, 248, 255, 25, 0, 0],
+        // 7.828783e-295
+        vec![120, 5, 0, 0, 0, 0, 224, 2],
         // 255
         vec![255],
         // 255
@@ -73,8 +73,6 @@ fn kani_concrete_playback_c02_p_change_desired_frequency_clamped_151519624565826
 }
 
 /* native run output:
-/x86_64-unknown-linux-gnu/debug/build/tokio/08901c66e86e93cd/out -L dependency=/verif/build/playback-x/x86_64-unknown-linux-gnu/debug/build/tokio-rustls/54d8ca3c8a7af86e/out -L dependency=/verif/build/playback-x/x86_64-unknown-linux-gnu/debug/build/tracing/5bb07173bbfece25/out -L dependency=/verif/build/playback-x/x86_64-unknown-linux-gnu/debug/build/tracing-core/8462334772d35f33/out -L dependency=/verif/build/playback-x/x86_64-unknown-linux-gnu/debug/build/typenum/4ef28bbd38ede6dd/out -L dependency=/verif/build/playback-x/x86_64-unknown-linux-gnu/debug/build/untrusted/a010c55f4c939ac1/out -L dependency=/verif/build/playback-x/x86_64-unknown-linux-gnu/debug/build/zerocopy/efa2c208243efb84/out -L dependency=/verif/build/playback-x/x86_64-unknown-linux-gnu/debug/build/zeroize/4444842b71a295a1/out -L dependency=/verif/build/playback-x/x86_64-unknown-linux-gnu/debug/build/zmij/91739b33de1678fe/out -L dependency=/verif/build/playback-x/debug/build/ntp-proto/674f468bfdacaeac/out -C embed-bitcode=no --cfg 'feature="aws-lc"' --cfg 'feature="default"' --cfg 'feature="rustcrypto"' --check-cfg 'cfg(docsrs,test)' --check-cfg 'cfg(feature, values("__internal-api", "__internal-fuzz", "__internal-test", "arbitrary", "aws-lc", "default", "openssl", "openssl-vendored", "rustcrypto"))' --error-format human` (exit status: 1)
-note: test exited abnormally; to see the full output pass --no-capture to the harness.
-error: /root/.kani/kani-0.68.0/toolchain/bin/cargo exited with status exit status: 1
-
+panicked at /verif/kani/ntp_proto/algorithm/kalman/mod.rs:308:9:
+assertion failed: FREQS.load(Relaxed) == 1 && f >= -max && f <= max
 */
